@@ -5,6 +5,7 @@ import SciVerif.Lemmas.C17x
 import SciVerif.Lemmas.C17q
 import SciVerif.Lemmas.C17i
 import SciVerif.Lemmas.C17j
+import SciVerif.Lemmas.C17k
 import SciVerif.Generated.C17Units
 
 /-!
@@ -620,6 +621,32 @@ example : fragRunB unitTable (absEnv Env.empty)
     fragRunB unitTable (absEnv Env.empty)
       [.defn [['a']] .float [] (.lit (.num 3)) (some ['m']),
        .defn [['b']] .str [] (.inj none (.exact [['a']]) []) none] = false := by
+  decide +kernel
+
+/-- Proved part, nested programs, side conditions as a computation: `runNB` (a `Bool`-valued
+    function of the unit table, the initial environment and the program) evaluates the decidable
+    forms of `InFrag`, `PathOK`, `PropOK` for every line in the environment the MODEL's own run
+    reaches, and demands of an import line at indent `i` that its statement addresses the
+    destination `impDest` computes from the hierarchy stack.  For every program it accepts — no
+    `Prop`-valued hypothesis about the program is left — whenever the specification accepts the
+    statements, the main loop accepts the lines and ends in the abstraction of the specification's
+    result.  (`runNB` is sound for `RunN`; unlike `fragRunB` it is not claimed complete: `ImpPathOK`
+    also holds for other spellings of the same destination.) -/
+theorem C17_refinement_nested_checked_partial (tbl : UnitTable) (lines : List NLine) (items : List Item)
+    (env : Env) (s' : SEnv) (hinv : Inv tbl env) (hchk : runNB tbl env lines = true)
+    (hc : lines.mapM NLine.item = some items)
+    (h : sRun tbl (absEnv env) (lines.filterMap NLine.stmt?) = .ok s') :
+    ∃ env', items.foldlM (step tbl) env = .ok env' ∧ absEnv env' = s' ∧ Inv tbl env' :=
+  refine_runN tbl lines items env s' hinv (runNB_sound tbl env lines hchk) hc h
+
+/-- the nested check accepts `a float = 3 m` / `g` / `  b float = {?a}` / `  {?*}` / `  !constant`
+    (the import at indent 2 re-creates `a` and `g.b` below `g`; the property line is for `g.g.b`) -/
+example : runNB unitTable Env.empty
+    [.base (.stmt 0 ['a'] (.defn [['a']] .float [] (.lit (.num 3)) (some ['m']))),
+     .base (.group 0 ['g']),
+     .base (.stmt 2 ['b'] (.defn [['g'], ['b']] .float [] (.inj none (.exact [['a']]) []) none)),
+     .imp 2 [] [['g']] none .all,
+     .base (.prop [['g'], ['g'], ['b']] .constant)] = true := by
   decide +kernel
 
 /-- a property line in its documented place: "update the node at the path" (specification) and
